@@ -77,7 +77,13 @@ fn example_for(rng: &mut Rng, rule: &Value) -> Value {
         "method": match s["methods"].as_array() { Some(ms) if !ms.is_empty() && rng.coin() => ms[0].clone(), _ => if rng.coin() { Value::Null } else { json!("GET") } },
         "headers": if headers.is_empty() { Value::Null } else { json!(headers) },
         "ip_address": if s["ips"].is_array() || rng.chance(1, 5) { json!(rng.pick_str(&["10.1.2.3", "8.8.8.8", "2001:db8:1::5"])) } else { Value::Null },
-        "response_status_code": match rng.below(4) { 0 => json!(200), 1 => json!(404), _ => Value::Null },
+        "response_status_code": match (s["response_status_codes"].as_array(), rng.below(4)) {
+            (Some(codes), 0 | 1) if !codes.is_empty() => codes[0].clone(),
+            (_, 0) => json!(200),
+            (_, 1) => json!(404),
+            (_, 2) if rng.chance(1, 3) => json!(*rng.pick(&[410u16, 500])),
+            _ => Value::Null,
+        },
         "must_match": rng.chance(3, 4),
         "unit_ids_applied": if rng.chance(4, 5) { json!(if rng.coin() { vec![] } else { vec![format!("unit-{}", rule["id"].as_str().unwrap_or(""))] }) } else { Value::Null },
     });
